@@ -19,7 +19,7 @@ import (
 const c14Max = 2
 
 type c14Event struct {
-	Kind string `json:"event"` // tcp hs-key hs-badkey hs-health hs-wrongpw session shell cmd close wait-end
+	Kind string `json:"event"` // tcp hs-key hs-badkey hs-health hs-wrongpw session flood shell cmd close wait-end
 	C    int    `json:"conn"`
 	Ch   int    `json:"channel,omitempty"`
 }
@@ -37,6 +37,7 @@ type c14Conn struct {
 	Health bool
 	Shells []int // shell requests per channel
 	Cmd    bool  // a command was sent (session will end by itself)
+	Flood  bool  // 20 further channel-open requests were sent without waiting for the answers
 }
 
 type c14Model struct {
@@ -79,7 +80,7 @@ func (m c14Model) pending() int {
 func (m c14Model) key() string {
 	var parts []string
 	for _, c := range m.Conns {
-		parts = append(parts, fmt.Sprintf("%s/%v/%v/%v", c.Phase, c.Health, c.Shells, c.Cmd))
+		parts = append(parts, fmt.Sprintf("%s/%v/%v/%v/%v", c.Phase, c.Health, c.Shells, c.Cmd, c.Flood))
 	}
 	sort.Strings(parts)
 	return strings.Join(parts, ";")
@@ -114,6 +115,12 @@ func (m c14Model) events() (out []c14Event) {
 				continue
 			}
 			out = append(out, c14Event{Kind: "close", C: i})
+			if c.Flood {
+				continue
+			}
+			if len(c.Shells) <= 1 {
+				out = append(out, c14Event{Kind: "flood", C: i})
+			}
 			if len(c.Shells) < 2 {
 				out = append(out, c14Event{Kind: "session", C: i})
 			}
@@ -245,8 +252,36 @@ func (r *c14Run) apply(e c14Event) string {
 		if r.model.open() > c14Max {
 			return fmt.Sprintf("%d authenticated connections are being served at once, MaxConnections is %d", r.model.open(), c14Max)
 		}
+	case "flood":
+		// a burst of channel-open requests whose answers nobody waits for (more than the SSH library buffers)
+		for i := 0; i < 20; i++ {
+			go func(cl *ssh.Client) {
+				if ch, reqs, err := cl.OpenChannel("session", nil); err == nil {
+					go ssh.DiscardRequests(reqs)
+					go io.Copy(io.Discard, ch)
+				}
+			}(rc.client)
+		}
+		time.Sleep(500 * time.Millisecond)
+		mc.Flood = true
 	case "session":
-		ch, reqs, err := rc.client.OpenChannel("session", nil)
+		type opened struct {
+			ch   ssh.Channel
+			reqs <-chan *ssh.Request
+			err  error
+		}
+		oc := make(chan opened, 1)
+		go func(cl *ssh.Client) {
+			ch, reqs, err := cl.OpenChannel("session", nil)
+			oc <- opened{ch, reqs, err}
+		}(rc.client)
+		var o opened
+		select {
+		case o = <-oc:
+		case <-time.After(30 * time.Second):
+			return "stuck: a further session channel on an open connection was not answered within 30 s"
+		}
+		ch, reqs, err := o.ch, o.reqs, o.err
 		if err != nil {
 			return "harness: open channel: " + err.Error()
 		}
@@ -408,6 +443,11 @@ func c14Explore(c *core.Ctx, depth int) {
 					transitions++
 					c.Count(c14PathString(path))
 					if v != "" && at == len(path)-1 {
+						if strings.HasPrefix(v, "stuck:") {
+							// not a statement about connection slots: note it and do not go on from here
+							c.Res.Extra["unanswered_channel_opens"] = toF(c.Res.Extra["unanswered_channel_opens"]) + 1
+							continue
+						}
 						if strings.HasPrefix(v, "harness:") {
 							c.Res.HarnessErr = fmt.Sprintf("path %s: %s", c14PathString(path), v)
 							return
@@ -469,6 +509,8 @@ func c14ModelStep(m c14Model, e c14Event) (c14Model, bool) {
 		c.Phase = "closed"
 	case "session":
 		c.Shells = append(c.Shells, 0)
+	case "flood":
+		c.Flood = true
 	case "shell":
 		c.Shells[e.Ch]++
 	case "cmd":
@@ -508,4 +550,11 @@ func init() {
 			return v
 		},
 	})
+}
+
+func toF(x interface{}) float64 {
+	if f, ok := x.(float64); ok {
+		return f
+	}
+	return 0
 }
